@@ -140,6 +140,8 @@ def run(ctx, bt):
     from .. import whole_run as W
     # complete backtests of program trees (flat and nested, shadow copies included) executed end to end by the model
     W.whole_run_protocol(ctx, bt, ctx.scale(15, 300), "whole-run[C03]", footprint_fields=FOOT_FIELDS)
+    # ... and programs with CapitalFlow at the head of the stack, counting schedulers and selection sequences
+    W.whole_run_protocol(ctx, bt, ctx.scale(20, 400), "whole-run-x[C03]:capital-flows", footprint_fields=FOOT_FIELDS, extended=True)
 
 
 def search(ctx, bt):
